@@ -398,6 +398,10 @@ func (g *fastGenerator) fieldItem(field *protogen.Field, fieldname string, messa
 			buf := `dAtA[iNdEx:postIndex]`
 			msgname := g.noStarOrSliceType(field)
 			g.P(`v := &`, msgname, `{}`)
+			// a repeated occurrence of the selected member merges into it
+			g.P(`if m, ok := x.`, fieldname, `.(*`, field.GoIdent, `); ok && m.`, field.GoName, ` != nil {`)
+			g.P(`v = m.`, field.GoName)
+			g.P(`}`)
 			g.decodeMessage("v", buf, field.Message)
 			g.P(`x.`, fieldname, ` = &`, field.GoIdent, `{v}`)
 
